@@ -147,6 +147,7 @@ pub fn run(ctx: &Ctx) -> (Stats, Report) {
     st.section("replays", &mut mark);
     let seed = ctx.seed;
 
+    let value_pools: Vec<Vec<Val>> = KINDS.iter().map(|k| pools::pool(*k, 0, 0)).collect();
     // 1a: every short string as a picture, against fixed inputs
     let alpha: Vec<String> = super::c19::ALPHABET.iter().map(|b| (*b as char).to_string()).collect();
     let alpha_ref: Vec<&str> = alpha.iter().map(|s| s.as_str()).collect();
@@ -228,7 +229,7 @@ pub fn run(ctx: &Ctx) -> (Stats, Report) {
             // restrict to tokens applicable to the kind half of the time so that formatting succeeds
             let toks: Vec<gen::CTok> = if vsel & 1 == 0 { toks.iter().filter(|t| applicable(kind, &t.0)).cloned().collect() } else { toks.clone() };
             let pic = gen::spell_all(&toks);
-            let pool = pools::pool(kind, 0, 0);
+            let pool = &value_pools[kind.index()];
             let v = pool[((*vsel >> 1) as u64 * pool.len() as u64 >> 31) as usize % pool.len()];
             let lv = ad::to_lib(&v).map_err(|e| format!("pool value rejected: {e:?}"))?;
             // formatting the pool value itself must not panic either
@@ -263,7 +264,7 @@ pub fn run(ctx: &Ctx) -> (Stats, Report) {
             let kind = KINDS[*ki];
             let toks: Vec<gen::CTok> = if vsel & 1 == 0 { toks.iter().filter(|t| applicable(kind, &t.0)).cloned().collect() } else { toks.clone() };
             let pic = gen::spell_all(&toks);
-            let pool = pools::pool(kind, 0, 0);
+            let pool = &value_pools[kind.index()];
             let v = pool[((*vsel >> 1) as u64 * pool.len() as u64 >> 31) as usize % pool.len()];
             let base = match ad::to_lib(&v).ok().and_then(|lv| ad::format_direct(&lv, &pic).ok()) {
                 Some(ad::FmtOut::Text(t)) => t,
@@ -274,6 +275,54 @@ pub fn run(ctx: &Ctx) -> (Stats, Report) {
     );
     st.merge(s);
     st.section("grammar_pictures_x_mutated_inputs", &mut mark);
+
+    // 2a: structured inputs from the constructive speller (valid lenient spellings and
+    // single-component perturbations of all six types), optionally mutated further: these get
+    // past the first fields and reach the cross-checks at the end of parsing
+    let s = pt_run(
+        "C03/speller",
+        seed,
+        (if ctx.thorough { 6_000_000 } else { 400_000 }) / THREADS as u32,
+        THREADS,
+        || {
+            (
+                0usize..6,
+                0usize..6,
+                proptest::collection::vec(any::<u32>(), 96),
+                0u32..=crate::speller::PERTURBS.len() as u32,
+                proptest::collection::vec((any::<u8>(), any::<u16>(), any::<u16>()), 0..=2),
+            )
+        },
+        |(ki, vi, choices, neg, muts): &(usize, usize, Vec<u32>, u32, Vec<(u8, u16, u16)>), st: &mut Stats| {
+            let kind = KINDS[*ki];
+            let pool = &value_pools[kind.index()];
+            let raw = pool[(choices[95] as usize) % pool.len()].raw;
+            let _ = vi;
+            let b = crate::speller::build(kind, raw, choices, *neg);
+            let text = mutate_text(&b.text, muts);
+            let n = check_text(&b.picture, &text)?;
+            st.evaluations += n as u64;
+            st.class(if b.negative { "speller-perturbed-input" } else { "speller-valid-input" });
+            if !muts.is_empty() {
+                st.class("speller-input-mutated-further");
+            }
+            st.fps.push(hash_bytes(hash_bytes(*ki as u64 + 0x3a0, b.picture.as_bytes()), text.as_bytes()));
+            if st.evaluations % 9973 < n as u64 {
+                let key = mix64(seed ^ hash_bytes(33, text.as_bytes()));
+                st.sample(key, || json!({"picture": b.picture, "input": text, "from": "speller"}));
+            }
+            Ok(())
+        },
+        |(ki, _vi, choices, neg, muts): &(usize, usize, Vec<u32>, u32, Vec<(u8, u16, u16)>)| {
+            let kind = KINDS[*ki];
+            let pool = &value_pools[kind.index()];
+            let raw = pool[(choices[95] as usize) % pool.len()].raw;
+            let b = crate::speller::build(kind, raw, choices, *neg);
+            Case::new(P, "text", vec![], vec![b.picture, mutate_text(&b.text, muts)])
+        },
+    );
+    st.merge(s);
+    st.section("speller_built_inputs", &mut mark);
 
     // 2b: every pool value of every type formatted with every single token and the fixed pictures
     let mut pics: Vec<String> = FIXED_PICTURES.iter().map(|s| s.to_string()).collect();
